@@ -32,6 +32,7 @@ from .api import NpuLayout
 from .api import NpuOperation
 from .api import NpuOperationType
 from .api import NpuPadding
+from .api import NpuPoolingOp
 from .api import NpuQuantization
 from .api import NpuShape3D
 from .architecture_features import ArchitectureFeatures
@@ -408,7 +409,10 @@ def get_ifm_ofm_block_depth(arch: ArchitectureFeatures, npu_op: NpuBlockOperatio
     # Note: NOT equivalent to the normal ifm block depth calculation since
     # it takes into account 'depthless' block operations by returning full
     # depth
-    if npu_op.op_type == NpuOperationType.Conv2D:
+    if npu_op.op_type == NpuOperationType.Conv2D or (
+        npu_op.op_type == NpuOperationType.Pooling and npu_op.sub_op_type == NpuPoolingOp.REDUCE_SUM
+    ):
+        # These operations traverse the whole IFM depth for every OFM block
         res = arch.calc_ifm_block_depth(npu_op.ifm.shape.depth, npu_op.ifm.data_type.size_in_bits())
         return res
     return npu_op.ofm.shape.depth
